@@ -366,8 +366,33 @@ func worldPorts(w *World) {
 				hist("squat %s", key)
 			}
 		case k < 17: // drop the session and log in again
+			// in a third of the drops registrations are still in flight when the connection goes away: whatever the
+			// server does with them, nothing of a dead session may stay bound
+			if r.Intn(3) == 0 {
+				var sentNames []string
+				for j := 0; j < r.Range(1, 3); j++ {
+					name := names[r.Intn(len(names))]
+					if m.live[name] != nil {
+						continue
+					}
+					port := pickPort()
+					if port <= 0 || !m.allowed[port] {
+						port = 0
+					}
+					c.Send(tNewProxy, M{"proxy_name": name, "proxy_type": "tcp", "remote_port": port})
+					m.ambig["tcp/"+name] = true // the dying session may or may not have been given a port under this name
+					sentNames = append(sentNames, name)
+				}
+				hist("%s sends NewProxy for %v and drops at once", c.Name, sentNames)
+				w.Probe("ports.drop_during_registration")
+				if d := r.Intn(3); d > 0 {
+					time.Sleep(time.Duration(d) * time.Millisecond)
+				}
+			}
 			hist("%s.drop+relogin", c.Name)
 			c.Drop()
+			w.WaitUntil(20*time.Second, 50*time.Millisecond, func() bool { return c.ServerGone() })
+			time.Sleep(300 * time.Millisecond)
 			for n, p := range m.live {
 				if p.owner == c {
 					unlive(n)
